@@ -610,7 +610,7 @@ func setOffsetInAdaptationSet(cfg *ResponseConfig, as *m.AdaptationSetType) (ato
 			as.ProducerReferenceTimes = createProducerReferenceTimes(cfg.StartTimeS)
 		}
 	}
-	atoMS = int(1000 * ato)
+	atoMS = int(math.Round(1000 * ato)) // 1.001*1000 is 1000.9999999999999
 	return atoMS, nil
 }
 
